@@ -710,7 +710,11 @@ var minimiseDeadline time.Time
 
 func minimiseAndConfirm(cfg driveCfg, eng *Engine, v Violation) (Violation, bool, string) {
 	if minimiseDeadline.IsZero() {
-		minimiseDeadline = time.Now().Add(150 * time.Second)
+		budget := 150 * time.Second
+		if v, err := time.ParseDuration(os.Getenv("VERIF_MIN_BUDGET")); err == nil && v > 0 {
+			budget = v // e.g. the seeded-change matrix only needs the verdict, not small replays
+		}
+		minimiseDeadline = time.Now().Add(budget)
 	}
 	if v.Oracle == historyOracle[cfg.prop] && v.Oracle != "" {
 		if len(v.Prefix) == 0 && v.NShards > 0 {
